@@ -8,4 +8,9 @@ BigMod(x, t) == ((x[1] % t) * (65536 % t) + (x[2] % t)) % t
 BigSmall(x) == x[1] < 16384                \* fits a TLC integer
 BigVal(x) == x[1] * 65536 + x[2]           \* only when BigSmall(x)
 BigWellFormed(x) == x[1] >= 0 /\ x[2] >= 0 /\ x[2] < 65536
+\* twice x (x below 2^33)
+BigDbl(x) == <<2 * x[1] + (2 * x[2]) \div 65536, (2 * x[2]) % 65536>>
+\* x - y as a TLC integer, when the two are less than 2^30 apart
+BigNear(x, y) == x[1] - y[1] < 16384 /\ y[1] - x[1] < 16384
+BigDiff(x, y) == (x[1] - y[1]) * 65536 + (x[2] - y[2])
 =============================================================================
